@@ -184,13 +184,20 @@ impl<'b> MessageBuilder<'b, '_> {
         }
 
         // Try to build the item.
-        self.offset = item.build_in_message(
+        match item.build_in_message(
             &mut self.message.contents,
             self.offset,
             self.compressor,
-        )?;
-
-        // TODO: Reset the name compressor in case of failure.
+        ) {
+            Ok(offset) => self.offset = offset,
+            Err(err) => {
+                // Names of the item may already have been written and
+                // remembered by the compressor. They are not part of the
+                // message, and will be overwritten by the next item.
+                self.compressor.truncate(self.offset);
+                return Err(err.into());
+            }
+        }
 
         // Update the section counts, now that we have succeeded.
         counts[section] += 1;
